@@ -238,6 +238,15 @@ func runC04(c *Ctx) {
 		ok, why := monotoneOver(ff, arg, finH)
 		c.Require("C04.R3 monotone-argument", key, p.InstrPos(s.Call),
 			"argument is φ(stored, x) with x > stored proved on x's edge (or max(stored, x))", ok, why)
+		// the precommitted height is the one the block being applied produced: it is read after
+		// the block's execution (whose first step, the BFT hook, recomputes it in the staged store)
+		{
+			execs := CallsIn(s.Fn, "(*consensus.stateExecuter).Execute")
+			for _, g := range CallsIn(s.Fn, "(*consensus/liskbft.API).GetBFTHeights") {
+				okAfter := len(execs) == 1 && instrDominates(execs[0].Call, g.Call)
+				c.Require("C04.R3 precommitted-read-after-execution", key, p.InstrPos(g.Call), "GetBFTHeights is called after abi.Execute ran the block's BFT hook (the raise happens in the step that applies the block causing it)", okAfter, "")
+			}
+		}
 		// stored height must have been read successfully before
 		okr, fr := ff.NilErrAt(s.Call.Block(), finErr)
 		c.Require("C04.R3 stored-height-read", key, p.InstrPos(s.Call), "GetFinalizedHeight()#1 == nil dominates the call", okr, fr)
